@@ -89,6 +89,58 @@ def _k(x):
     return x[0] if isinstance(x, tuple) else x
 
 
+def _listing_sources(prog, chk, V6):
+    """The four listing helpers (table / index / column lists and sqlite_master) read the catalog of
+    the database they are told to read.  Accepted statement forms (SQLite semantics): `PRAGMA
+    [<schema>.]<name>('<object>')` and `SELECT .. FROM [<schema>.]sqlite_master ..`, with the schema
+    taken from the helper's database-name parameter when it has one.  The table-valued form
+    `<schema>.pragma_<name>(..)` is rejected: SQLite ignores a schema qualifier there and resolves
+    the object in attach order, so the perfdata copy of a table would never be inspected."""
+    from .. import sites as _sites
+    n = 0
+    for f in prog.functions.values():
+        if f.body is None or f.kind != 'CXXConstructorDecl' or 'schema_validate_utils' not in (f.file or ''):
+            continue
+        for st in _sites.find_sites(f):
+            n += 1
+            txt = st.text
+            pn = [p.get('name') for p in f.params]
+            holes = re.findall(r'\$\{(\w+)\}', txt)
+            has_db = len(f.params) == 3
+            dbn = pn[1] if has_db else None
+            short = '%s(%s)' % ((f.qualname or '').split('::')[-1], ', '.join(pn[1:]))
+            inst = '%s reads %r' % (short, txt)
+            ok = False
+            why = ''
+            m = re.match(r"^\s*PRAGMA\s+(?:\$\{(\w+)\}\.)?(table_info|index_list|index_info|table_xinfo|index_xinfo)\s*\(\s*'\$\{(\w+)\}'\s*\)\s*;?\s*$", txt, re.I)
+            m2 = re.match(r"^\s*SELECT\s+[\w\s,]+\s+FROM\s+(?:\$\{(\w+)\}\.)?sqlite_master\b", txt, re.I)
+            mm = m or m2
+            if mm:
+                sch = mm.group(1)
+                if has_db and sch != dbn:
+                    why = 'the statement is not qualified with the database name parameter %s' % dbn
+                elif not has_db and sch is not None:
+                    why = 'unexpected schema qualifier'
+                else:
+                    ok = True
+            elif re.search(r'\bpragma_\w+\s*\(', txt, re.I):
+                if has_db and re.search(r'\$\{%s\}\s*\.\s*pragma_' % re.escape(dbn or ''), txt):
+                    why = ('SQLite ignores the schema qualifier of a pragma table-valued function: the object is looked '
+                           'up in attach order, so the other attached file with a table of the same name is never read')
+                elif has_db and not re.search(r",\s*'?\$\{%s\}'?\s*\)" % re.escape(dbn or ''), txt):
+                    why = 'the database name parameter does not reach the table-valued function as its schema argument'
+                else:
+                    ok = True
+            else:
+                why = 'statement form not among the modelled catalog queries'
+            if ok:
+                chk.ok(V6, inst, locstr(st.node))
+            else:
+                chk.violation(V6, '%s|listing source' % short, locstr(st.node), '%s: %s' % (inst, why))
+    if n < 8:
+        chk.fail_broken('V6: only %d listing-helper statement(s) found (expected 8)' % n)
+
+
 def run(tier='quick'):
     prog = program.load()
     chk = Check('C17', tier)
@@ -103,6 +155,11 @@ def run(tier='quick'):
     V4 = chk.rule('V4', 'validate helpers compare each listed attribute with the entry member of the same '
                         'meaning, throw database_inconsistency on inequality and on iter == end; '
                         'validate_no_more throws when iter != end', floor=20)
+    V5 = chk.rule('V5', 'each creator stamps the library with the version triple of its own class, so that the '
+                        'validator verify() selects after reopening is the one written for that structure', floor=50)
+    V6 = chk.rule('V6', 'the listing helpers read the catalog of the database they are given: PRAGMA / sqlite_master '
+                        'statements qualified with their database-name parameter', floor=8)
+    _listing_sources(prog, chk, V6)
     chk.assume('PRAGMA table_info / index_list / index_info and sqlite_master report what the catalog '
                'model derives from the DDL (the model is cross-validated here against expectation blocks '
                'that pass on real SQLite in the pinned suite)')
@@ -113,8 +170,24 @@ def run(tier='quick'):
     for cls in classes:
         short = cls.split('::')[-1]
         ver = schemas.version_of_class(prog, cls)
+        mname = re.match(r'schema_(\d+)_(\d+)_(\d+)', short)
+        name_ver = tuple(int(x) for x in mname.groups()) if mname else None
+        # V5: after reopening, verify() runs the validator of the *detected* version: the creator must
+        # stamp the triple of its own class, or a library it created is judged by another version's list
+        if ver != name_ver:
+            chk.violation(V5, '%s|schema_version' % short, locstr(prog.records[cls].node),
+                          '%s declares schema_version %s (own or inherited) but is the creator / validator of %s: '
+                          'a library it creates is detected as another version after reopening and verify() then '
+                          'applies that version\'s expectation lists to it' % (short, ver, name_ver))
+            ver = name_ver
+        else:
+            chk.ok(V5, '%s: schema_version %s is its own' % (short, ver), locstr(prog.records[cls].node))
         gen = 1 if ver[0] == 1 else 2
         trace = schemas.creation_trace(prog, cls)
+        from . import c12 as _c12
+        for e_ in trace:
+            if e_.stmt.kind == 'insert' and (e_.stmt.table or '').lower() == 'information':
+                _c12._check_info_insert(prog, chk, V5, cls, short, ver, e_)
         cats = schemas.split_catalogs(trace, gen)
         blocks = verifyblocks.verify_trace(prog, cls)
         nblocks += len(blocks)
